@@ -71,11 +71,16 @@ def run_case(case):
             if kind == 'lmtp' and script.get('EOD'):
                 for i in range(n):
                     script['EOD%d' % i] = script['EOD']
-            p = StagePeer(script, lmtp=(kind == 'lmtp'))
+            if case.get('no8bit'):
+                p = StagePeer(script, lmtp=(kind == 'lmtp'), exts=('PIPELINING', 'ENHANCEDSTATUSCODES'))     # no 8BITMIME: the relay converts
+            else:
+                p = StagePeer(script, lmtp=(kind == 'lmtp'))
             peers.append(p)
             return p
         cls = StaticLmtpRelay if kind == 'lmtp' else StaticSmtpRelay
-        relay = cls('peer.example', 25, socket_creator=creator, context=StubClientContext(), ehlo_as='q.example')
+        from email.encoders import encode_base64
+        relay = cls('peer.example', 25, socket_creator=creator, context=StubClientContext(), ehlo_as='q.example',
+                    binary_encoder=(encode_base64 if case.get('no8bit') else None))
     elif kind in ('pipe', 'pipe-one'):
         tmp = tempfile.mkdtemp(prefix='vfrk_')
         prog = os.path.join(tmp, 'deliver.sh')
@@ -146,7 +151,10 @@ def run_case(case):
         relay = HttpRelay('http://127.0.0.1:%d/' % srv.server_port, timeout=5, ehlo_as='q.example')
 
     env = Envelope(sender, list(rcpts))
-    env.parse(b'Subject: rk\r\nX-Tag: rk\r\n\r\nbody\r\n')
+    original = b'Subject: rk\r\nX-Tag: rk\r\n\r\nbody\r\n'
+    if case.get('no8bit'):
+        original = b'Subject: rk\r\nX-Tag: rk\r\nMIME-Version: 1.0\r\nContent-Type: text/plain; charset=utf-8\r\n\r\ncaf\xc3\xa9 au lait\r\n'
+    env.parse(original)
     env.receiver = 'q.example'
     env.timestamp = 1.0
     env.client = {}
@@ -195,6 +203,9 @@ def run_case(case):
         for b in bounces.items:
             flat = b''.join(b.flatten())
             head = flat.split(b'Content-Type: message/', 1)[0]
+            if case.get('no8bit') and original.split(b'\r\n\r\n', 1)[1] not in flat:
+                out.append(('C13:relay-kind-bounce-embeds-converted-message:%s' % kind,
+                            '%s: the bounce does not embed the original 8-bit body (the relay converted the envelope in place)' % desc))
             if kind in ('smtp', 'lmtp'):
                 # C13: a bounce quotes the reply its recipients failed with (the scripted peer words every reply after its stage)
                 quoted = set(int(x) for x in re.findall(br'stage RCPT(\d)', head))
